@@ -68,12 +68,10 @@ class MultisphereFailure(Exception):
                 "your scatterer is unphysical.")
 
 class TmatrixFailure(Exception):
-    def __init__(self, logfilestr):
-            self.logfilestr = logfilestr
+    def __init__(self, reason):
+        self.reason = reason
     def __str__(self):
-        with open(self.logfilestr) as logfile:
-            reason=list(logfile)[-1]
-        return("Tmatrix calculation failed. This might be because your scatterer's size or aspect ratio is too large for default parameters. \n Tmatrix error message: " + reason + "Full details are available in " + self.logfilestr)
+        return("Tmatrix calculation failed. This might be because your scatterer's size or aspect ratio is too large for default parameters. \n Tmatrix error message: " + str(self.reason))
 
 class AutoTheoryFailed(Exception):
     def __init__(self, scatterer):
